@@ -774,6 +774,8 @@ def run(ctx):
         h3 = c15.run_hist_tlc(ctx, ['val', 'valD', 'grad'], True, 3, refute=False)
         random.Random(ctx.seed).shuffle(h3)
         hists = hists + h3[:300]
+    # a history that ends with a value-only query has no gradient to judge at its end
+    hists = [h for h in hists if h[-1][0] != 'val']
     marks.append(('hist_tlc', time.time()))
     htot = c15.run_histories(ctx, 'C16', hexports, hists, 'grad', lambda s_: c15.methods_for(s_['dim']))
     marks.append(('hist_replay', time.time()))
